@@ -31,6 +31,14 @@
 (* nolen") and none for those that stay uniquely decodable ("nocount": the    *)
 (* length suffixes alone suffice, decoding from the end; "nodelim": the '$'   *)
 (* is redundant once the length is there).                                    *)
+(* A third class is injective on short strings over single bytes and          *)
+(* ambiguous as soon as an input EMBEDS what the framing writes behind an     *)
+(* element: the 8-byte field holding the number of elements, a constant, the  *)
+(* index, the first length, the total, the length modulo 256 or in one byte   *)
+(* instead of the length (EmbedAmbiguous, LongAmbiguous).  For those the      *)
+(* domain has SYMBOLS that are whole 9-byte blocks '$' o LE64(k) (BlockVals), *)
+(* and HashFrameAdv.tla constructs the colliding pairs.                       *)
+(* HashHistory.tla: histories of calls with re-used caller objects.           *)
 (*                                                                            *)
 (* State machine: t grows by one input per step up to MaxCount inputs, so the *)
 (* reachable states are exactly the tuples of the domain; with VIEW FrameView *)
@@ -39,6 +47,8 @@ EXTENDS Integers, Sequences, FiniteSets, TLC, Json
 
 CONSTANTS
   Alphabet,   \* byte values the inputs are made of, e.g. {0, 36, 1, 8}: zero, the delimiter, and bytes of LE64(1), LE64(8)
+  BlockVals,  \* "bytes" only: further SYMBOLS the inputs are made of: for every k in BlockVals the 9-byte block '$' o LE64(k),
+              \* i.e. a whole delimiter + length/count field as the framing (or a weakened copy of it) emits it; {} = none
   MaxCount,   \* tuples of 1..MaxCount inputs
   MaxLen,     \* every input has 0..MaxLen bytes
   Kind,       \* "bytes": inputs are byte strings (SHA512_256); "ints": inputs are integers (SHA512_256i, _TAGGED)
@@ -66,7 +76,14 @@ RECURSIVE Flatten(_)
 Flatten(ss) == IF ss = << >> THEN << >> ELSE Head(ss) \o Flatten(Tail(ss))
 
 (* ---- the domain --------------------------------------------------------- *)
-Strings == UNION { [1..n -> Alphabet] : n \in 0..MaxLen }
+(* an input is a string of at most MaxLen SYMBOLS; a symbol is one byte of the alphabet or one whole block.  With   *)
+(* BlockVals = {} these are the byte strings of at most MaxLen bytes.  The blocks make the exhaustive domain contain *)
+(* elements that EMBED what a framing writes behind an element: a framing whose field behind the delimiter does not  *)
+(* determine the element's length (count, index, constant ... instead of the length) is injective on short strings   *)
+(* over single bytes and ambiguous here.                                                                             *)
+Block(k) == << Delim >> \o LE64(k)
+Symbols  == { << a >> : a \in Alphabet } \cup { Block(k) : k \in BlockVals }
+Strings  == { Flatten(ss) : ss \in UNION { [1..n -> Symbols] : n \in 0..MaxLen } }
 Ints    == { BE(s) : s \in Strings }            \* every integer whose minimal encoding is a string of the domain
 Inputs  == IF Kind = "bytes" THEN Strings
            ELSE IF WithNil THEN Ints \cup {Nil} ELSE Ints
@@ -105,24 +122,57 @@ Unframe(f) ==
        IF body = Bad \/ LE64(Len(body)) # SubSeq(f, 1, 8) THEN Bad ELSE body
 
 (* ---- reduced / broken framings ------------------------------------------ *)
-VElem(v, b) ==
-  CASE v \in {"code", "nocount"}        -> FrameElem(b)
-    [] v \in {"nolen", "nocount+nolen"} -> b \o << Delim >>
-    [] v = "nodelim"                    -> b \o LE64(Len(b))
-    [] v = "bare"                       -> b
-    [] v = "skipempty"                  -> IF b = << >> THEN << >> ELSE FrameElem(b)
-VFrame(v, bs) ==
-  (IF v \in {"nocount", "nocount+nolen"} THEN << >> ELSE LE64(Len(bs)))
-    \o Flatten([i \in 1..Len(bs) |-> VElem(v, bs[i])])
-Variants  == {"code", "nocount", "nolen", "nocount+nolen", "nodelim", "bare", "skipempty"}
-Ambiguous == {"nolen", "nocount+nolen", "bare", "skipempty"}   \* expected to collide on the domain; the others not
+(* A framing variant is a record: what precedes the elements (pre), whether the delimiter follows an element (del),  *)
+(* which FIELD follows the delimiter (trl), and whether empty inputs contribute nothing (skip).  The code is           *)
+(* [pre "count", del "$", trl "len"].  The fields are the slips that still compile and keep every test of the library  *)
+(* passing: the element's length replaced by                                                                           *)
+(*   "none"   nothing                      "count"  the number of elements      "zero"   the constant 0                *)
+(*   "index"  the element's index          "first"  the length of element 1     "total"  the sum of all lengths        *)
+(*   "mod256" the length modulo 256        "w1"     the length in ONE byte      "w2"     the length in two bytes       *)
+RECURSIVE SumLen(_)
+SumLen(bs) == IF bs = << >> THEN 0 ELSE Len(Head(bs)) + SumLen(Tail(bs))
+Field(v, bs, i) ==
+  CASE v.trl = "len"    -> LE64(Len(bs[i]))
+    [] v.trl = "none"   -> << >>
+    [] v.trl = "count"  -> LE64(Len(bs))
+    [] v.trl = "zero"   -> LE64(0)
+    [] v.trl = "index"  -> LE64(i - 1)
+    [] v.trl = "first"  -> LE64(Len(bs[1]))
+    [] v.trl = "total"  -> LE64(SumLen(bs))
+    [] v.trl = "mod256" -> LE64(Len(bs[i]) % 256)
+    [] v.trl = "w1"     -> SubSeq(LE64(Len(bs[i])), 1, 1)
+    [] v.trl = "w2"     -> SubSeq(LE64(Len(bs[i])), 1, 2)
+(* what the framing writes behind element i of the tuple bs *)
+Sfx(v, bs, i) == (IF v.del = "$" THEN << Delim >> ELSE << >>) \o Field(v, bs, i)
+VElemAt(v, bs, i) == IF v.skip /\ bs[i] = << >> THEN << >> ELSE bs[i] \o Sfx(v, bs, i)
+VFrameR(v, bs) ==
+  (IF v.pre = "count" THEN LE64(Len(bs)) ELSE << >>) \o Flatten([i \in 1..Len(bs) |-> VElemAt(v, bs, i)])
+
+Trls == {"len", "none", "count", "zero", "index", "first", "total", "mod256", "w1", "w2"}
+AllVariantRecs == [pre : {"count", "none"}, del : {"$", "none"}, trl : Trls, skip : BOOLEAN]
+VR(pre, del, trl) == [pre |-> pre, del |-> del, trl |-> trl, skip |-> FALSE]
+VName(v) == v.pre \o "/" \o v.del \o "/" \o v.trl \o (IF v.skip THEN "/skipempty" ELSE "")
+(* the seven framings of the first version of this specification keep their names *)
+Named == [ code |-> VR("count", "$", "len"), nocount |-> VR("none", "$", "len"), nolen |-> VR("count", "$", "none"),
+           nodelim |-> VR("count", "none", "len"), bare |-> VR("count", "none", "none") ]
+         @@ ("nocount+nolen" :> VR("none", "$", "none"))
+         @@ ("skipempty" :> [VR("count", "$", "len") EXCEPT !.skip = TRUE])
+VOf(name) == IF name \in DOMAIN Named THEN Named[name] ELSE CHOOSE v \in AllVariantRecs : VName(v) = name
+VFrame(name, bs) == VFrameR(VOf(name), bs)
+Variants  == DOMAIN Named \cup { VName(v) : v \in AllVariantRecs }
+Ambiguous == {"nolen", "nocount+nolen", "bare", "skipempty"}   \* collide on short strings over single bytes; "code", "nocount", "nodelim" never
+(* injective as long as no input embeds a whole field, ambiguous as soon as one does (EmbedPairs below, and the      *)
+(* exhaustive domain with blocks): the length field of the code replaced by something that does not fix the length   *)
+EmbedAmbiguous == { VName(VR("count", "$", f)) : f \in {"count", "zero", "index", "first", "total"} }
+LongAmbiguous  == { VName(VR("count", "$", f)) : f \in {"mod256", "w1"} }      \* ambiguous from inputs of 256 bytes on
 
 ASSUME VariantSet \subseteq Variants /\ VariantSet # {}
 ASSUME Kind \in {"bytes", "ints"} /\ WithNil \in BOOLEAN /\ Emit \in BOOLEAN
 ASSUME \A a \in Alphabet : a \in 0..255
 ASSUME \A v \in {0, 1, 3, 8, 36, 255, 256, 65535, 65536, 16777215, 16777216, 2147483647} :
          LEVal(LE64(v)) = v /\ BE(IntBytes(v)) = v
-ASSUME \A bs \in {<< << >> >>, << <<1>>, <<2, 3>> >>} : VFrame("code", bs) = Frame(bs)
+ASSUME \A bs \in {<< << >> >>, << <<1>>, <<2, 3>> >>} : VFrame("code", bs) = Frame(bs) /\ VFrame("count/$/len", bs) = Frame(bs)
+ASSUME Kind = "ints" => BlockVals = {}        \* integers with 9-byte encodings are beyond TLC's 32 bits: the harness maps block strings to integers itself
 (* the example of the audit: bytes moved across an element boundary *)
 ASSUME VFrame("nolen", << <<1, Delim>>, <<8>> >>) = VFrame("nolen", << <<1>>, <<Delim, 8>> >>)
 ASSUME Frame(<< <<1, Delim>>, <<8>> >>) # Frame(<< <<1>>, <<Delim, 8>> >>)
@@ -134,7 +184,8 @@ Spec == Init /\ [][Next]_<<t, vw>>
 
 (* VIEW: distinct states = distinct (framing, frame) pairs, i.e. per framing the number of distinct frames (+1 for  *)
 (* the empty root).  For a set of injective framings that is Cardinality(VariantSet) * (number of tuples + 1).      *)
-FrameView == << vw, VFrame(vw, BytesAll(t)) >>
+VRec == TLCEval([n \in VariantSet |-> VOf(n)])
+FrameView == << vw, VFrameR(VRec[vw], BytesAll(t)) >>
 
 TypeOK == t \in Seq(Inputs) /\ Len(t) <= MaxCount
 
@@ -222,4 +273,7 @@ Witness(v)   == LET F == [tt \in SmallTuples |-> VFrame(v, tt)] IN
 (* the harness evaluates, in a wrapper module:                                                                      *)
 (*   ASSUME \A v \in Ambiguous : PrintT(<<"WITNESS", v, ToJson(Witness(v))>>)                                        *)
 (*   ASSUME \A v \in Variants \ Ambiguous : Witnesses(v) = {}                                                       *)
+
+(* The adversarial pairs (inputs that embed what a framing writes behind an element) and the probe tuples by which   *)
+(* the harness identifies the framing a real function follows are in HashFrameAdv.tla.                               *)
 =============================================================================
